@@ -20,6 +20,7 @@ class Missing(Exception):
 
 
 POS = ["First", "Middle", "Last", "Only"]
+ESC = "\x00ESC\x00"     # stands for `regex::escape` of the literal's text
 LEAVES = [("Separator", None), ("One", None), ("ZomEager", None), ("ZomLazy", None), ("Tree", True), ("Tree", False)]
 TOK = re.compile(r'\s*("(?:[^"\\]|\\.)*"|\'(?:[^\'\\]|\\.)\'|=>|&&|\|\||::|[A-Za-z_][A-Za-z0-9_]*!?|\d+|\S)')
 
@@ -99,6 +100,10 @@ class Interp:
     # ---- expressions that denote text
     def text(self):
         t = self.eat()
+        if t == "&" and self.p.get("literal_name") and [self.peek(k) for k in range(9)] == [self.p["literal_name"], ".", "text", "(", ")", ".", "escaped", "(", ")"]:
+            for _ in range(9):
+                self.eat()
+            return ESC
         if t.startswith('"'):
             return unstr(t)
         if t in self.env.macros:
@@ -165,6 +170,10 @@ class Interp:
             if not self.p.get("bound_has_root"):
                 raise Missing("has_root is not bound")
             return self.p["has_root"]
+        if self.p.get("literal_name") and t == self.p["literal_name"] and [self.peek(k) for k in range(1, 5)] == [".", "is_case_insensitive", "(", ")"]:
+            for _ in range(5):
+                self.eat()
+            return self.p["ci"]
         if t == "matches!":
             self.eat()
             self.eat("(")
@@ -380,6 +389,26 @@ def table(src):
     return rows
 
 
+def literal_template(src):
+    """{case-insensitive?: (text before the escaped literal, text after it)} from the Literal arm"""
+    env = Env(src)
+    out = {}
+    for pat, body in leaf_arms(src):
+        m = re.fullmatch(r"\(_,Literal\((\w+)\)\)", "".join(pat))
+        if not m:
+            continue
+        for ci in (False, True):
+            it = Interp(env, body, {"sup": None, "grouping": "Capture", "has_root": None, "bound_has_root": False, "literal_name": m.group(1), "ci": ci})
+            while it.peek() is not None:
+                it.stmt(True)
+            txt = "".join(it.out)
+            if txt.count(ESC) != 1:
+                raise Missing("literal arm: the escaped text is not pushed exactly once")
+            out[ci] = tuple(txt.split(ESC))
+        return out
+    raise Missing("no arm for literals at every position")
+
+
 def lstr(x):
     return '"' + x.replace("\\", "\\\\").replace('"', '\\"') + '"'
 
@@ -397,6 +426,10 @@ def lean_lines(src):
     for leaf, pos, sup, grouping, text in rows:
         body.append("  (.%s, .%s, %s, %s, %s)" % (ll[leaf], lp[pos], "none" if sup is None else "some .%s" % lp[sup], "true" if grouping == "Capture" else "false", lstr(text)))
     out.append(",\n".join(body) + "]")
+    lt = literal_template(src)
+    out += ["/-- the Literal arm: what is pushed before and after `regex::escape(text)`, by case-insensitivity -/",
+            "def literalBefore (ci : Bool) : String := if ci then %s else %s" % (lstr(lt[True][0]), lstr(lt[False][0])),
+            "def literalAfter (ci : Bool) : String := if ci then %s else %s" % (lstr(lt[True][1]), lstr(lt[False][1]))]
     return out
 
 
